@@ -223,84 +223,110 @@ Proof.
   - intros (_ & Hs & _). contradiction.
 Qed.
 
-Lemma gone_keep : forall s s' c, InvA s' -> Internal s s' -> is_client cfg c = true -> gone s c -> gone s' c.
+(* what a step may change, as seen from client c *)
+Record Frame (s s' : state) (c : node) : Prop := {
+  f_cl : cl s' c = cl s c;
+  f_resp : queue (net s' c RESP) = queue (net s c RESP);
+  f_ldr : (ldr s' = ldr s /\ (alive s' (ldr s) -> alive s (ldr s)) /\
+           fromc c (queue (net s' (ldr s) REQ)) = fromc c (queue (net s (ldr s) REQ)) /\
+           (servingC s' c -> servingC s c) /\
+           (servingC s c -> alive s' (ldr s) -> same_serving (rl s (ldr s)) (rl s' (ldr s))))
+          \/ (ldr s' <> ldr s /\ fresh s') }.
+
+Lemma internal_frame : forall s s' c, Internal s s' -> is_client cfg c = true -> Frame s s' c.
 Proof.
-  intros s s' c IA I Hc [G1 G2]. split; [rewrite (i_cresp s s' I c Hc); exact G1|].
-  intros Aq. destruct (i_ldr s s' I) as [(E & Hq & Hsv)|(N & F)].
-  - rewrite E in *. destruct (G2 (i_alive s s' I _ Aq)) as [G3 G4]. split.
-    + rewrite Hq by (apply client_not_rep; exact Hc). exact G3.
-    + intros (_ & S1 & m & S2 & S3). unfold servingC in G4. rewrite E in S1, S2. apply G4. destruct (Hsv Aq) as (V1 & _ & _ & _ & V5).
-      split; [apply (i_alive s s' I); exact Aq|]. unfold pcr in *. split; [apply V1; exact S1|].
-      exists m. destruct (V5 (proj1 V1 S1)) as (W1 & _). rewrite <- W1. auto.
+  intros s s' c I Hc. constructor.
+  - rewrite (i_cl s s' I). reflexivity.
+  - apply (i_cresp s s' I c Hc).
+  - destruct (i_ldr s s' I) as [(E & Hq & Hsv)|(N & F)]; [left | right; auto].
+    split; [exact E|]. split; [apply (i_alive s s' I)|]. split; [apply Hq; apply client_not_rep; exact Hc|]. split.
+    + intros (A1 & A2 & m & A3 & A4). rewrite E in *. destruct (Hsv A1) as (V1 & _ & _ & _ & V5).
+      split; [apply (i_alive s s' I); exact A1|]. unfold pcr in *. split; [apply V1; exact A2|].
+      exists m. destruct (V5 (proj1 V1 A2)) as (W1 & _). rewrite <- W1. auto.
+    + intros _ Aq. apply Hsv. exact Aq.
+Qed.
+
+Lemma gone_keepF : forall s s' c, InvA s' -> Frame s s' c -> is_client cfg c = true -> gone s c -> gone s' c.
+Proof.
+  intros s s' c IA F Hc [G1 G2]. split; [rewrite (f_resp s s' c F); exact G1|].
+  intros Aq. destruct (f_ldr s s' c F) as [(E & Hal & Hq & Hsc & Hsv)|(N & Fr)].
+  - rewrite E in *. destruct (G2 (Hal Aq)) as [G3 G4]. split; [rewrite Hq; exact G3|].
+    intros SC. apply G4. apply Hsc. exact SC.
   - apply fresh_gone; auto.
 Qed.
 
-Lemma cinvC_keep : forall w s s' mo mo' c, InvA s' -> Internal s s' -> is_client cfg c = true ->
+Lemma gone_keep : forall s s' c, InvA s' -> Internal s s' -> is_client cfg c = true -> gone s c -> gone s' c.
+Proof. intros s s' c IA I Hc. apply gone_keepF; auto. apply internal_frame; auto. Qed.
+
+Lemma cinvC_keepF : forall w s s' mo mo' c, InvA s' -> Frame s s' c -> is_client cfg c = true ->
   mo_st mo' c = mo_st mo c ->
   (someold w s -> servingC s c -> after_lin (pcr s (ldr s)) -> K s (ldr s) = Mx w -> alive s' (ldr s') -> someold w s') ->
-  (allnew w s -> alive s' (ldr s') -> allnew w s') ->
+  (allnew w s -> servingC s c -> alive s' (ldr s') -> allnew w s') ->
   cinvC w s mo c -> cinvC w s' mo' c.
 Proof.
-  intros w s s' mo mo' c IA I Hc Hmo HPa HPb H.
-  assert (GK : gone s c -> gone s' c) by (apply gone_keep; auto).
-  assert (NR : ~ isrep c) by (apply client_not_rep; exact Hc).
-  unfold cinvC in *. rewrite (i_cl s s' I), Hmo. destruct (c_pc (cl s c)).
+  intros w s s' mo mo' c IA F Hc Hmo HPa HPb H.
+  assert (GK : gone s c -> gone s' c) by (apply gone_keepF; auto).
+  unfold cinvC in *. rewrite (f_cl s s' c F), Hmo. destruct (c_pc (cl s c)).
   - destruct H as [G M]. auto.
   - destruct H as [G M]. auto.
   - destruct H as (cm & Ecm & H). exists cm. split; [exact Ecm|].
-    destruct (i_ldr s s' I) as [(E & Hq & Hsv)|(N & F)].
+    destruct (f_ldr s s' c F) as [(E & Hal & Hq & Hsc & Hsv)|(N & Fr)].
     + (* same leader *)
       rewrite E in *.
       destruct H as [(Q1 & Q2 & Q3 & Q4 & Q5)|[(H1 & H2 & H3 & H4 & H5 & H6 & H7)|[(S1 & S2 & S3 & S4 & S5 & S6 & S7)|[(R1 & R2)|(X1 & X2)]]]].
-      * left. split; [exact Q1|]. split; [rewrite Hq by exact NR; exact Q2|]. split.
-        { intros (A1 & A2 & m & A3 & A4). apply Q3. rewrite E in *. destruct (Hsv A1) as (V1 & _ & _ & _ & V5).
-          split; [apply (i_alive s s' I); exact A1|]. unfold pcr in *. split; [apply V1; exact A2|].
-          exists m. destruct (V5 (proj1 V1 A2)) as (W1 & _). rewrite <- W1. auto. }
-        split; [rewrite (i_cresp s s' I c Hc); exact Q4 | exact Q5].
-      * destruct (alive_dec s' (ldr s)) as [Aq|Nq].
-        { right; left. destruct (Hsv Aq) as (V1 & V2 & _ & _ & V5). unfold pcr in *.
+      * left. split; [exact Q1|]. split; [rewrite Hq; exact Q2|]. split; [intros SC; apply Q3; apply Hsc; exact SC|].
+        split; [rewrite (f_resp s s' c F); exact Q4 | exact Q5].
+      * assert (SC : servingC s c).
+        { split; [exact H2|]. split; [rewrite H3; exact Logic.I|]. eexists. split; [exact H4 | reflexivity]. }
+        destruct (alive_dec s' (ldr s)) as [Aq|Nq].
+        { right; left. destruct (Hsv SC Aq) as (V1 & V2 & _ & _ & V5). unfold pcr in *.
           split; [exact H1|]. split; [exact Aq|]. split; [apply V2; exact H3|].
           destruct V5 as (W1 & _); [rewrite H3; exact Logic.I|].
-          split; [rewrite W1; exact H4|]. split; [rewrite Hq by exact NR; exact H5|].
-          split; [rewrite (i_cresp s s' I c Hc); exact H6 | exact H7]. }
+          split; [rewrite W1; exact H4|]. split; [rewrite Hq; exact H5|].
+          split; [rewrite (f_resp s s' c F); exact H6 | exact H7]. }
         { right; right; right; right. split; [|left; exact H7].
-          split; [rewrite (i_cresp s s' I c Hc); exact H6|]. intros Aq. rewrite E in Aq. contradiction. }
-      * destruct (alive_dec s' (ldr s)) as [Aq|Nq].
-        { right; right; left. destruct (Hsv Aq) as (V1 & V2 & V3 & V4 & V5). unfold pcr in *.
-          assert (Hsrv : serving (r_pc (rl s (ldr s)))) by (destruct (r_pc (rl s (ldr s))); cbn in *; auto).
+          split; [rewrite (f_resp s s' c F); exact H6|]. intros Aq. rewrite E in Aq. contradiction. }
+      * assert (Hsrv : serving (pcr s (ldr s))) by (destruct (pcr s (ldr s)); cbn in *; auto).
+        assert (SC : servingC s c).
+        { split; [exact S2|]. split; [exact Hsrv|]. eexists. split; [exact S4 | reflexivity]. }
+        destruct (alive_dec s' (ldr s)) as [Aq|Nq].
+        { right; right; left. destruct (Hsv SC Aq) as (V1 & V2 & V3 & V4 & V5). unfold pcr in *.
           destruct (V5 Hsrv) as (W1 & W2 & W3 & W4).
           split; [exact S1|]. split; [exact Aq|]. split; [apply V3; exact S3|].
-          split; [rewrite W1; exact S4|]. split; [rewrite Hq by exact NR; exact S5|].
-          split; [rewrite (i_cresp s s' I c Hc); exact S6|].
+          split; [rewrite W1; exact S4|]. split; [rewrite Hq; exact S5|].
+          split; [rewrite (f_resp s s' c F); exact S6|].
           destruct S7 as (rb & rt & B1 & B2 & B3). exists rb, rt. rewrite W2, W3. split; [exact B1|]. split; [exact B2|].
           destruct B3 as [(G1 & G2 & G3)|(k & v & P1 & P2 & P3 & P4 & P5)].
           - left. split; [exact G1|]. split; [apply V4; exact G2 | exact G3].
           - right. exists k, v. split; [exact P1|]. split; [exact P2|]. split; [exact P3|]. split; [rewrite W4; exact P4|].
-            assert (SC : servingC s c).
-            { split; [exact S2|]. split; [exact Hsrv|]. eexists. split; [exact S4 | reflexivity]. }
             destruct P5 as [(O1 & O2)|(N1 & N2)]; [left; split; [apply HPa; auto; unfold K; rewrite P4; reflexivity | exact O2] | right; split; [apply HPb; auto | exact N2]]. }
         { right; right; right; right. split.
-          - split; [rewrite (i_cresp s s' I c Hc); exact S6|]. intros Aq. rewrite E in Aq. contradiction.
+          - split; [rewrite (f_resp s s' c F); exact S6|]. intros Aq. rewrite E in Aq. contradiction.
           - destruct S7 as (rb & rt & _ & _ & [(_ & _ & v & _ & _ & G)|(k & v & _ & _ & _ & _ & [(_ & G)|(_ & G)])]); eauto. }
       * right; right; right; left. split.
-        { intros Aq. destruct (R1 (i_alive s s' I _ Aq)) as [G3 G4]. split; [rewrite Hq by exact NR; exact G3|].
-          intros (A1 & A2 & m & A3 & A4). apply G4. rewrite E in *. destruct (Hsv A1) as (V1 & _ & _ & _ & V5).
-          split; [apply (i_alive s s' I); exact A1|]. unfold pcr in *. split; [apply V1; exact A2|].
-          exists m. destruct (V5 (proj1 V1 A2)) as (W1 & _). rewrite <- W1. auto. }
-        { rewrite (i_cresp s s' I c Hc). exact R2. }
+        { intros Aq. destruct (R1 (Hal Aq)) as [G3 G4]. split; [rewrite Hq; exact G3|].
+          intros SC. apply G4. apply Hsc. exact SC. }
+        { rewrite (f_resp s s' c F). exact R2. }
       * right; right; right; right. split; [apply GK; exact X1 | exact X2].
     + (* a new leader: whatever was at the old one is lost *)
       assert (FG : forall Hr : queue (net s c RESP) = [], gone s' c).
-      { intros Hr. split; [rewrite (i_cresp s s' I c Hc); exact Hr|]. intros Aq. apply fresh_gone; auto. }
+      { intros Hr. split; [rewrite (f_resp s s' c F); exact Hr|]. intros Aq. apply fresh_gone; auto. }
       destruct H as [(Q1 & Q2 & Q3 & Q4 & Q5)|[(H1 & H2 & H3 & H4 & H5 & H6 & H7)|[(S1 & S2 & S3 & S4 & S5 & S6 & S7)|[(R1 & R2)|(X1 & X2)]]]].
       * right; right; right; right. split; [apply FG; exact Q4 | left; exact Q5].
       * right; right; right; right. split; [apply FG; exact H6 | left; exact H7].
       * right; right; right; right. split; [apply FG; exact S6|].
         destruct S7 as (rb & rt & _ & _ & [(_ & _ & v & _ & _ & G)|(k & v & _ & _ & _ & _ & [(_ & G)|(_ & G)])]); eauto.
-      * right; right; right; left. split; [intros Aq; apply fresh_gone; auto|]. rewrite (i_cresp s s' I c Hc). exact R2.
+      * right; right; right; left. split; [intros Aq; apply fresh_gone; auto|]. rewrite (f_resp s s' c F). exact R2.
       * right; right; right; right. split; [apply GK; exact X1 | exact X2].
   - apply GK. exact H.
 Qed.
+
+Lemma cinvC_keep : forall w s s' mo mo' c, InvA s' -> Internal s s' -> is_client cfg c = true ->
+  mo_st mo' c = mo_st mo c ->
+  (someold w s -> servingC s c -> after_lin (pcr s (ldr s)) -> K s (ldr s) = Mx w -> alive s' (ldr s') -> someold w s') ->
+  (allnew w s -> servingC s c -> alive s' (ldr s') -> allnew w s') ->
+  cinvC w s mo c -> cinvC w s' mo' c.
+Proof. intros w s s' mo mo' c IA I Hc. apply cinvC_keepF; auto. apply internal_frame; auto. Qed.
 
 Lemma cinvC_X_keep : forall w s s' mo' c cm, InvA s' -> Internal s s' -> is_client cfg c = true ->
   c_pc (cl s c) = RcvResp -> c_msg (cl s c) = Some cm -> gone s c ->
@@ -441,7 +467,7 @@ Proof.
     - intros SO. apply (rc_old w s mo R). apply HO. exact SO.
     - exact HOr.
     - intros c Hc. apply (cinvC_keep w s s' mo mo c IA' I Hc eq_refl); [apply HPa; exact Hc | | apply (rc_cl w s mo R c Hc)].
-      intros AN Aq. apply (allnew_fwd w s s' IB' I AN). eauto.
+      intros AN _ Aq. apply (allnew_fwd w s s' IB' I AN). eauto.
     - apply (rc_nc w s mo R).
     - apply (relC_q_keep w s s' mo IA' I R).
     - apply (relC_req_keep w s s' mo I R). }
@@ -873,7 +899,7 @@ Lemma internal_failLabel : forall s p ch s', InvA s -> isrep p -> pcr s p = Fail
   step_failLabel cfg ch s p = Ok s' -> Internal s s'.
 Proof.
   intros s p ch s' I Hp Epc Hs. unfold step_failLabel in Hs. inversion Hs; subst s'; clear Hs. unfold pcr in Epc.
-  set (s' := set_rl (set_prim (set_fd s (updf (fdv s) p true)) (updf (prim (set_fd s (updf (fdv s) p true))) p false)) p (r_set_pc (rl s p) RDone)).
+  set (s' := set_rl (set_prim (set_fd s (updf (fdv s) p true)) (updf (prim s) p false)) p (r_set_pc (rl s p) RDone)).
   assert (Hrl' : forall r, r <> p -> rl s' r = rl s r) by (intros r Hr; unfold s'; simp_st; apply updf_other; exact Hr).
   assert (Hal : forall r, alive s' r -> alive s r /\ r <> p).
   { intros r [Hr Ha]. destruct (Nat.eq_dec r p) as [->|N].
@@ -893,6 +919,686 @@ Proof.
       * intros m Hin Hsrc. change (net s') with (net s) in Hin. rewrite EPC in Hin. apply in_app_or in Hin. destruct Hin as [Hin|Hin].
         -- rewrite Forall_forall in HP. destruct (HP m Hin) as (Hs1 & _). congruence.
         -- apply Hneq. apply HCq. intros ->. destruct Hin.
+Qed.
+
+(* ------------------------------------------------------------------ all the steps of replicas that are invisible to the clients *)
+Lemma simC_internal : forall s p ch s', SimC s -> isrep p -> step_replica cfg ch s p = Ok s' ->
+  pcr s p <> HandlePrimary -> pcr s p <> SndResp -> pcr s' p <> HandlePrimary -> SimC s'.
+Proof.
+  intros s p ch s' (IA & w & t & mo & IB & Hrun & Hproj & R) Hp Hs N1 N2 N3.
+  assert (Hstep : step cfg s (Ev p ch) = Ok s').
+  { unfold step. apply (isrep_iff cfg) in Hp. rewrite Hp. exact Hs. }
+  assert (IA' : InvA s') by (eapply invA_step; eauto).
+  assert (X : InvB w s' /\ Internal s s').
+  { unfold step_replica in Hs. unfold pcr in N1, N2.
+    destruct (r_pc (rl s p)) eqn:Epc; try congruence;
+      try (assert (Ap : alive s p) by (split; [exact Hp | unfold pcr; rewrite Epc; reflexivity])).
+    - split; [eapply (invB_replicaLoop cfg w s p ch s'); eauto | eapply internal_replicaLoop; eauto].
+    - split; [eapply (invB_syncPrimary cfg w s p ch s'); eauto | eapply internal_syncPrimary; eauto].
+    - split; [eapply (invB_sndSyncReqLoop cfg w s p ch s'); eauto | eapply internal_sndSyncReqLoop; eauto].
+    - split; [eapply (invB_rcvSyncRespLoop cfg w s p ch s'); eauto | eapply internal_rcvSyncRespLoop; eauto].
+    - split; [eapply (invB_rcvMsg cfg w s p ch s'); eauto | eapply internal_rcvMsg; eauto].
+    - split; [eapply (invB_handleBackup cfg w s p ch s'); eauto | eapply internal_handleBackup; eauto].
+    - split; [eapply (invB_sndReplicaReqLoop cfg w s p ch s'); eauto | eapply internal_sndReplicaReqLoop; eauto].
+    - split; [eapply (invB_rcvReplicaRespLoop cfg w s p ch s'); eauto | eapply internal_rcvReplicaRespLoop; eauto].
+    - split; [eapply (invB_failLabel cfg w s p ch s'); eauto | eapply internal_failLabel; eauto]. }
+  destruct X as [IB' I].
+  destruct (relC_internal w s s' t mo IA IB IA' IB' I Hrun Hproj R) as (t' & mo' & A & B & C).
+  split; [exact IA'|]. exists w, t', mo'. auto.
+Qed.
+
+(* ------------------------------------------------------------------ steps that do not touch the replicas' stores *)
+Definition same_rep (s s' : state) : Prop :=
+  (forall r, alive s' r <-> alive s r) /\ (forall r, r_lastPutBody (rl s' r) = r_lastPutBody (rl s r)) /\
+  (forall r k, fsv s' r k = fsv s r k).
+
+Lemma isnew_ext : forall w s s' r, same_rep s s' -> (isnew w s' r <-> isnew w s r).
+Proof. intros w s s' r (_ & H2 & H3). unfold ProofsCrashB.isnew. rewrite H2. split; intros [A B]; split; auto; intros k; [rewrite <- H3 | rewrite H3]; apply B. Qed.
+
+Lemma isold_ext : forall w s s' r, same_rep s s' -> (isold w s' r <-> isold w s r).
+Proof. intros w s s' r (_ & H2 & H3). unfold isold. rewrite H2. split; intros (A & B & C); repeat split; auto; intros k; [rewrite <- H3 | rewrite H3]; apply C. Qed.
+
+Lemma allnew_ext : forall w s s', same_rep s s' -> (allnew w s' <-> allnew w s).
+Proof.
+  intros w s s' SR. pose proof SR as (H1 & _). unfold allnew. split; intros [(r & Ar) H]; (split; [exists r; apply H1; exact Ar|]); intros r0 Ar0.
+  - apply (isnew_ext w s s' r0 SR). apply H. apply H1. exact Ar0.
+  - apply (isnew_ext w s s' r0 SR). apply H. apply H1. exact Ar0.
+Qed.
+
+Lemma someold_ext : forall w s s', same_rep s s' -> (someold w s' <-> someold w s).
+Proof.
+  intros w s s' SR. pose proof SR as (H1 & _). unfold someold. split; intros (r & Ar & Ho); exists r; (split; [apply H1; exact Ar|]);
+    apply (isold_ext w s s' r SR); exact Ho.
+Qed.
+
+(* a client that is not being served does not depend on the witness *)
+Lemma cinvC_w_irrelevant : forall w w' s mo c, ~ servingC s c -> cinvC w s mo c -> cinvC w' s mo c.
+Proof.
+  intros w w' s mo c NS H. unfold cinvC in *. destruct (c_pc (cl s c)); auto.
+  destruct H as (cm & Ecm & H). exists cm. split; [exact Ecm|].
+  destruct H as [H|[H|[(S1 & S2 & S3 & S4 & _)|[H|H]]]].
+  - left. exact H.
+  - right; left. exact H.
+  - exfalso. apply NS. split; [exact S2|]. split; [destruct (pcr s (ldr s)); cbn in *; auto|]. eexists. split; [exact S4 | reflexivity].
+  - right; right; right; left. exact H.
+  - right; right; right; right. exact H.
+Qed.
+
+Lemma relC_special : forall w s s' mo mo' c0, InvA s' -> RelC w s mo -> same_rep s s' ->
+  is_client cfg c0 = true ->
+  (forall c, is_client cfg c = true -> c <> c0 -> Frame s s' c) ->
+  (forall k, mo_store mo' k = mo_store mo k) -> (forall c, c <> c0 -> mo_st mo' c = mo_st mo c) ->
+  cinvC w s' mo' c0 ->
+  (c_pc (cl s c0) = RcvResp -> gone s c0 -> False) ->
+  (alive s (ldr s) /\ inrepl s (ldr s) -> alive s' (ldr s') /\ inrepl s' (ldr s')) ->
+  (alive s' (ldr s') -> forall m, In m (queue (net s' (ldr s') REQ)) -> m_src m = CLIENT_SRC -> is_client cfg (m_from m) = true) ->
+  (alive s' (ldr s') -> serving (pcr s' (ldr s')) -> exists m, r_req (rl s' (ldr s')) = Some m /\ is_client cfg (m_from m) = true) ->
+  RelC w s' mo'.
+Proof.
+  intros w s s' mo mo' c0 IA R SR Hc0 HF Hst Hmo Hcc Hno Hrep Hq Hreq. constructor.
+  - intros AN k. rewrite Hst. apply (rc_new w s mo R). apply (allnew_ext w s s' SR). exact AN.
+  - intros SO k. rewrite Hst. apply (rc_old w s mo R). apply (someold_ext w s s' SR). exact SO.
+  - intros N' SO'. apply (someold_ext w s s' SR) in SO'.
+    destruct (rc_orph w s mo R) as (c & Hc & Epc & G & cm & k & v & Ecm & Hput & HcM & Hs); [tauto | exact SO'|].
+    assert (Hne : c <> c0) by (intros ->; exact (Hno Epc G)).
+    pose proof (HF c Hc Hne) as F. exists c. split; [exact Hc|]. split; [rewrite (f_cl s s' c F); exact Epc|].
+    split; [apply (gone_keepF s s' c IA F Hc G)|]. exists cm, k, v. rewrite (f_cl s s' c F), (Hmo c Hne). auto.
+  - intros c Hc. destruct (Nat.eq_dec c c0) as [->|Hne]; [exact Hcc|].
+    apply (cinvC_keepF w s s' mo mo' c IA (HF c Hc Hne) Hc (Hmo c Hne)); [| | apply (rc_cl w s mo R c Hc)].
+    + intros SO _ _ _ _. apply (someold_ext w s s' SR). exact SO.
+    + intros AN _ _. apply (allnew_ext w s s' SR). exact AN.
+  - intros c Hc. rewrite Hmo; [apply (rc_nc w s mo R c Hc)|]. intros ->. congruence.
+  - exact Hq.
+  - exact Hreq.
+Qed.
+
+(* the state of the client whose request is at the head of the leader's queue *)
+Lemma head_client_Q : forall w s mo m rest, RelC w s mo -> alive s (ldr s) -> queue (net s (ldr s) REQ) = m :: rest ->
+  m_src m = CLIENT_SRC ->
+  let c := m_from m in
+  is_client cfg c = true /\ c_pc (cl s c) = RcvResp /\ exists cm, c_msg (cl s c) = Some cm /\
+    c_replica (cl s c) = ldr s /\ m = reqmsgR c (ldr s) cm (c_idx (cl s c)) /\ fromc c rest = [] /\
+    queue (net s c RESP) = [] /\ mo_st mo c = CInvoked cm /\ ~ servingC s c.
+Proof.
+  intros w s mo m rest R Aq Eq Hsrc c.
+  assert (Hc : is_client cfg c = true) by (apply (rc_q w s mo R Aq m); [rewrite Eq; left; reflexivity | exact Hsrc]).
+  split; [exact Hc|]. pose proof (rc_cl w s mo R c Hc) as H. unfold cinvC in H.
+  assert (Hf : fromc c (queue (net s (ldr s) REQ)) = m :: fromc c rest).
+  { rewrite Eq. unfold fromc. cbn. unfold c. rewrite Nat.eqb_refl. reflexivity. }
+  assert (NG : gone s c -> False).
+  { intros [_ G]. destruct (G Aq) as [G1 _]. rewrite Hf in G1. discriminate. }
+  destruct (c_pc (cl s c)).
+  - destruct H as [G _]. destruct (NG G).
+  - destruct H as [G _]. destruct (NG G).
+  - split; [reflexivity|]. destruct H as (cm & Ecm & [(Q1 & Q2 & Q3 & Q4 & Q5)|[(_ & _ & _ & _ & H5 & _)|[(_ & _ & _ & _ & S5 & _)|[(R1 & _)|(X1 & _)]]]]).
+    + exists cm. rewrite Hf in Q2. inversion Q2 as [[E1 E2]]. rewrite E2. repeat (split; auto).
+    + rewrite Hf in H5. discriminate.
+    + rewrite Hf in S5. discriminate.
+    + destruct (R1 Aq) as [G1 _]. rewrite Hf in G1. discriminate.
+    + destruct (NG X1).
+  - destruct (NG H).
+Qed.
+
+(* ------------------------------------------------------------------ rcvMsg: the leader takes a client's request *)
+Lemma simC_rcvMsg_client : forall s p ch s', SimC s -> isrep p -> pcr s p = RcvMsg ->
+  step_replica cfg ch s p = Ok s' -> pcr s' p = HandlePrimary -> SimC s'.
+Proof.
+  intros s p ch s' (IA & w & t & mo & IB & Hrun & Hproj & R) Hp Epc Hs Hpc'.
+  assert (Hstep : step cfg s (Ev p ch) = Ok s').
+  { unfold step. apply (isrep_iff cfg) in Hp. rewrite Hp. exact Hs. }
+  assert (IA' : InvA s') by (eapply invA_step; eauto).
+  assert (Ap : alive s p) by (split; [exact Hp | rewrite Epc; reflexivity]).
+  unfold step_replica in Hs. unfold pcr in Epc. rewrite Epc in Hs.
+  assert (IB' : InvB w s') by (eapply (invB_rcvMsg cfg w s p ch s'); eauto).
+  unfold step_rcvMsg in Hs.
+  destruct (_ && _).
+  { inversion Hs; subst s'. unfold pcr in Hpc'. simp_st. rewrite updf_same in Hpc'. discriminate. }
+  unfold link_recv in Hs. destruct (negb (enabled _)); [discriminate|]. destruct (queue (net s p REQ)) as [|m q] eqn:Eq; [discriminate|].
+  dif Hs; [discriminate|].
+  change (leader cfg (set_net s (upd_net (net s) p REQ (mkLink q (enabled (net s p REQ)))))) with (ldr s) in Hs.
+  destruct (Nat.eqb (ldr s) p && srct_eqb (m_src m) CLIENT_SRC) eqn:Ecl.
+  2:{ inversion Hs; subst s'. unfold pcr in Hpc'. simp_st. rewrite updf_same in Hpc'. discriminate. }
+  apply andb_true_iff in Ecl. destruct Ecl as [El Esrc]. apply Nat.eqb_eq in El.
+  assert (Hsrc : m_src m = CLIENT_SRC) by (destruct (m_src m); cbn in Esrc; congruence).
+  subst p. inversion Hs; subst s'; clear Hs.
+  set (q0 := ldr s) in *.
+  set (s' := set_rl (set_net s (upd_net (net s) q0 REQ (mkLink q (enabled (net s q0 REQ))))) q0
+                    (r_set_pc (r_set_req (rl s q0) (Some m)) HandlePrimary)) in *.
+  destruct (head_client_Q w s mo m q R Ap Eq Hsrc) as (Hc0 & Ecp & cm & Ecm & Erep & Em & Hfq & Hresp & Hst & Hns).
+  set (c0 := m_from m) in *.
+  assert (El' : ldr s' = q0) by (apply ldr_prim_ext; reflexivity).
+  assert (Hal : forall r, alive s' r <-> alive s r).
+  { intros r. unfold ProofsCrashA.alive, pcr, s'. simp_st. unfold updf. destruct (Nat.eqb r q0) eqn:Er; [|tauto].
+    apply Nat.eqb_eq in Er. subst r. simp_st. rewrite Epc. cbn. tauto. }
+  assert (Hq0c : forall c, is_client cfg c = true -> c <> q0) by (intros c Hc ->; exact (client_not_rep _ Hc Hp)).
+  assert (Hpc1 : pcr s' q0 = HandlePrimary) by (unfold pcr, s'; simp_st; rewrite updf_same; reflexivity).
+  assert (Hreq1 : r_req (rl s' q0) = Some m) by (unfold s'; simp_st; rewrite updf_same; reflexivity).
+  assert (Hq1 : queue (net s' q0 REQ) = q) by (unfold s'; simp_st; rewrite upd_net_same; reflexivity).
+  split; [exact IA'|]. exists w, t, mo. split; [exact IB'|]. split; [exact Hrun|]. split; [exact Hproj|].
+  apply (relC_special w s s' mo mo c0 IA' R); auto.
+  - split; [exact Hal|]. split.
+    + intros r. unfold s'. simp_st. unfold updf. destruct (Nat.eqb r q0) eqn:Er; [|reflexivity]. apply Nat.eqb_eq in Er. subst r. reflexivity.
+    + intros r k. reflexivity.
+  - intros c Hc Hne. constructor.
+    + reflexivity.
+    + unfold s'. simp_st. rewrite upd_net_other by (right; discriminate). reflexivity.
+    + left. split; [exact El'|]. split; [apply Hal|]. split.
+      * fold q0. rewrite Hq1, Eq. unfold fromc. cbn. fold c0. destruct (Nat.eqb c0 c) eqn:Er; [|reflexivity].
+        apply Nat.eqb_eq in Er. congruence.
+      * split.
+        -- intros (_ & _ & m1 & E1 & E2). rewrite El', Hreq1 in E1. inversion E1; subst m1. exfalso. apply Hne. symmetry. exact E2.
+        -- intros (_ & Hsv & _). fold q0 in Hsv. unfold pcr in Hsv. rewrite Epc in Hsv. destruct Hsv.
+  - (* the client is now in state H *)
+    unfold cinvC. change (cl s' c0) with (cl s c0). rewrite Ecp. exists cm. split; [exact Ecm|]. right; left.
+    rewrite El'. split; [exact Erep|]. split; [apply Hal; exact Ap|]. split; [exact Hpc1|].
+    split; [rewrite Hreq1, Em; reflexivity|]. split; [rewrite Hq1; exact Hfq|].
+    split; [|exact Hst]. unfold s'. simp_st. rewrite upd_net_other by (right; discriminate). exact Hresp.
+  - intros _ [_ G]. destruct (G Ap) as [G1 _]. fold q0 in G1. rewrite Eq in G1. unfold fromc in G1. cbn in G1.
+    fold c0 in G1. rewrite Nat.eqb_refl in G1. discriminate.
+  - intros [_ [H|H]]; fold q0 in H; unfold pcr in H; rewrite Epc in H; discriminate.
+  - rewrite El'. intros _ m1 Hin Hs1. rewrite Hq1 in Hin. apply (rc_q w s mo R Ap m1); [fold q0; rewrite Eq; right; exact Hin | exact Hs1].
+  - rewrite El'. intros _ _. exists m. split; [exact Hreq1 | exact Hc0].
+Qed.
+
+(* the client the live leader is serving *)
+Lemma served_state : forall w s mo, RelC w s mo -> alive s (ldr s) -> serving (pcr s (ldr s)) ->
+  exists c cm, is_client cfg c = true /\ c_pc (cl s c) = RcvResp /\ c_msg (cl s c) = Some cm /\
+    c_replica (cl s c) = ldr s /\ r_req (rl s (ldr s)) = Some (reqmsgR c (ldr s) cm (c_idx (cl s c))) /\
+    fromc c (queue (net s (ldr s) REQ)) = [] /\ queue (net s c RESP) = [] /\
+    (pcr s (ldr s) = HandlePrimary -> mo_st mo c = CInvoked cm) /\
+    (after_lin (pcr s (ldr s)) ->
+       exists rb rt, r_respBody (rl s (ldr s)) = Some rb /\ r_respTyp (rl s (ldr s)) = Some rt /\
+          ((cm_typ cm = GET_REQ /\ pcr s (ldr s) = SndResp /\ exists v, rb = BContent v /\ rt = GET_RESP /\ mo_st mo c = CLinearized cm v) \/
+           (exists k v, putof cm k v /\ rb = ACK_MSG_BODY /\ rt = PUT_RESP /\
+              r_lastPutBody (rl s (ldr s)) = BPut (Mx w) (Some (k, v)) /\
+              ((someold w s /\ mo_st mo c = CInvoked cm) \/
+               (allnew w s /\ mo_st mo c = CLinearized cm "ack-body"%string))))).
+Proof.
+  intros w s mo R Aq Hsrv.
+  destruct (rc_req w s mo R Aq Hsrv) as (m & Em & Hc).
+  assert (SC : servingC s (m_from m)) by (split; [exact Aq|]; split; [exact Hsrv|]; eauto).
+  pose proof (rc_cl w s mo R _ Hc) as H. unfold cinvC in H.
+  assert (NG : gone s (m_from m) -> False) by (intros [_ G]; destruct (G Aq) as [_ G2]; contradiction).
+  destruct (c_pc (cl s (m_from m))) eqn:Epc.
+  - destruct H as [G _]. destruct (NG G).
+  - destruct H as [G _]. destruct (NG G).
+  - destruct H as (cm & Ecm & [(_ & _ & Q3 & _)|[(H1 & H2 & H3 & H4 & H5 & H6 & H7)|[(S1 & S2 & S3 & S4 & S5 & S6 & S7)|[(R1 & _)|(X1 & _)]]]]).
+    + contradiction.
+    + exists (m_from m), cm. repeat (split; [assumption|]). split; [intros _; exact H7|].
+      intros Hal. rewrite H3 in Hal. destruct Hal.
+    + exists (m_from m), cm. repeat (split; [assumption|]). split; [|intros _; exact S7].
+      intros E. rewrite E in S3. destruct S3.
+    + destruct (R1 Aq) as [_ N]. contradiction.
+    + destruct (NG X1).
+  - destruct (NG H).
+Qed.
+
+(* ------------------------------------------------------------------ sndResp: the answer leaves the leader *)
+Lemma simC_sndResp : forall s p ch s', SimC s -> isrep p -> pcr s p = SndResp ->
+  step_replica cfg ch s p = Ok s' -> SimC s'.
+Proof.
+  intros s p ch s' (IA & w & t & mo & IB & Hrun & Hproj & R) Hp Epc Hs.
+  assert (Hstep : step cfg s (Ev p ch) = Ok s').
+  { unfold step. apply (isrep_iff cfg) in Hp. rewrite Hp. exact Hs. }
+  assert (IA' : InvA s') by (eapply invA_step; eauto).
+  assert (Ap : alive s p) by (split; [exact Hp | rewrite Epc; reflexivity]).
+  assert (Hq : p = ldr s) by (apply (nonbackup_is_ldr cfg s p IA Ap); rewrite Epc; cbn; tauto).
+  unfold step_replica in Hs. unfold pcr in Epc. rewrite Epc in Hs.
+  assert (IB' : InvB w s') by (eapply (invB_sndResp cfg w s p ch s'); eauto).
+  subst p. set (q0 := ldr s) in *.
+  destruct (served_state w s mo R Ap) as (c0 & cm & Hc0 & Ecp & Ecm & Erep & Ereq & Hfq & Hresp & _ & HS); [unfold pcr; fold q0; rewrite Epc; exact Logic.I|].
+  destruct HS as (rb & rt & Erb & Ert & HS); [unfold pcr; fold q0; rewrite Epc; exact Logic.I|]. fold q0 in Ereq, Erb, Ert, HS, Hfq, Erep.
+  (* the operation has been linearized *)
+  assert (Hlin : exists v, mo_st mo c0 = CLinearized cm v /\ respmatch cm rb rt v).
+  { destruct HS as [(G1 & _ & v & -> & -> & G3)|(k & v & P1 & -> & -> & P4 & [(SO & _)|(_ & P5)])].
+    - exists v. split; [exact G3|]. right. auto.
+    - exfalso. destruct SO as (r & Ar & Ho).
+      pose proof (quiet_stable w s IA IB Ap (or_intror Epc) r Ar) as Hk. fold q0 in Hk.
+      destruct (isold_K w s r Ho). unfold K in Hk at 2. rewrite P4 in Hk. cbn in Hk. lia.
+    - exists "ack-body"%string. split; [exact P5|]. left. destruct P1. auto. }
+  destruct Hlin as (v & Hst & Hmatch).
+  unfold step_sndResp in Hs. rewrite Ereq, Erb, Ert in Hs. cbn [bindT] in Hs.
+  unfold reqmsgR in Hs. simp_st. unfold link_send in Hs. simp_st. destruct (enabled (net s c0 RESP)); [|discriminate].
+  inversion Hs; subst s'; clear Hs.
+  set (resp := mkMsg q0 c0 rb PRIMARY_SRC rt (c_idx (cl s c0))) in *.
+  set (s' := set_rl (set_net s (upd_net (net s) c0 RESP (mkLink (queue (net s c0 RESP) ++ [resp]) true))) q0 (r_set_pc (rl s q0) ReplicaLoop)) in *.
+  assert (El' : ldr s' = q0) by (apply ldr_prim_ext; reflexivity).
+  assert (Hal : forall r, alive s' r <-> alive s r).
+  { intros r. unfold ProofsCrashA.alive, pcr, s'. simp_st. unfold updf. destruct (Nat.eqb r q0) eqn:Er; [|tauto].
+    apply Nat.eqb_eq in Er. subst r. simp_st. rewrite Epc. cbn. tauto. }
+  assert (Hc0q : c0 <> q0) by (intros E; rewrite E in Hc0; exact (client_not_rep _ Hc0 Hp)).
+  assert (Hpc1 : pcr s' q0 = ReplicaLoop) by (unfold pcr, s'; simp_st; rewrite updf_same; reflexivity).
+  assert (Hq1 : queue (net s' q0 REQ) = queue (net s q0 REQ)).
+  { unfold s'. simp_st. rewrite upd_net_other by (right; discriminate). reflexivity. }
+  assert (NS' : forall c, ~ servingC s' c).
+  { intros c (_ & Hsv & _). rewrite El', Hpc1 in Hsv. destruct Hsv. }
+  split; [exact IA'|]. exists w, t, mo. split; [exact IB'|]. split; [exact Hrun|]. split; [exact Hproj|].
+  apply (relC_special w s s' mo mo c0 IA' R); auto.
+  - split; [exact Hal|]. split.
+    + intros r. unfold s'. simp_st. unfold updf. destruct (Nat.eqb r q0) eqn:Er; [|reflexivity]. apply Nat.eqb_eq in Er. subst r. reflexivity.
+    + intros r k. reflexivity.
+  - intros c Hc Hne. constructor.
+    + reflexivity.
+    + unfold s'. simp_st. rewrite upd_net_other by (left; exact Hne). reflexivity.
+    + left. split; [exact El'|]. split; [apply Hal|]. split; [fold q0; rewrite Hq1; reflexivity|]. split.
+      * intros SC. destruct (NS' c SC).
+      * intros (_ & _ & m1 & E1 & E2). fold q0 in E1. rewrite Ereq in E1. inversion E1; subst m1. cbn in E2. congruence.
+  - (* the client is now in state R *)
+    unfold cinvC. change (cl s' c0) with (cl s c0). rewrite Ecp. exists cm. split; [exact Ecm|]. right; right; right; left.
+    rewrite El'. split.
+    + intros _. split; [rewrite Hq1; exact Hfq | apply NS'].
+    + exists v, rb, rt. split; [|split; [exact Hst | exact Hmatch]].
+      unfold s'. simp_st. rewrite upd_net_same. simp_st. rewrite Hresp, Erep. reflexivity.
+  - intros _ [_ G]. destruct (G Ap) as [_ G2]. apply G2. split; [exact Ap|]. fold q0. unfold pcr. rewrite Epc. split; [exact Logic.I|].
+    eexists. split; [exact Ereq | reflexivity].
+  - intros [_ [H|H]]; fold q0 in H; unfold pcr in H; rewrite Epc in H; discriminate.
+  - rewrite El'. intros _ m1 Hin Hs1. rewrite Hq1 in Hin. apply (rc_q w s mo R Ap m1 Hin Hs1).
+  - rewrite El', Hpc1. intros _ [].
+Qed.
+
+(* the new witness of a Put, explicitly (same proof as invB_handlePrimary_put) *)
+Lemma invB_hp_put_explicit : forall w s k v lv,
+  InvA s -> InvB w s -> alive s (ldr s) -> pcr s (ldr s) = HandlePrimary ->
+  body_ver (r_lastPutBody (rl s (ldr s))) = Some lv ->
+  exists w', Mx w' = lv + 1 /\ cM w' = Some (k, v) /\ (forall k0, Fold w' k0 = fsv s (ldr s) k0) /\ InvB w'
+    (set_rl (set_fs s (upd_fs (fsv s) (ldr s) k v)) (ldr s)
+       (r_set_pc (r_set_idx (r_set_rs (r_set_resp (r_set_lpb (rl s (ldr s)) (BPut (lv + 1) (Some (k, v))))
+                                                   (Some ACK_MSG_BODY) (Some PUT_RESP)) (others cfg (ldr s))) 1)
+                 SndReplicaReqLoop)).
+Proof.
+  intros w s k v lv IA IB Aq Epc Hlv.
+  set (q := ldr s) in *.
+  set (l' := r_set_pc (r_set_idx (r_set_rs (r_set_resp (r_set_lpb (rl s q) (BPut (lv + 1) (Some (k, v))))
+                                                   (Some ACK_MSG_BODY) (Some PUT_RESP)) (others cfg q)) 1) SndReplicaReqLoop).
+  set (s' := set_rl (set_fs s (upd_fs (fsv s) q k v)) q l').
+  pose proof IB as [V P Ph].
+  destruct (a_loc cfg s IA q Aq) as (_ & _ & L3 & _).
+  destruct L3 as (req & Hreq & Hcreq & Hss & Hqc); [unfold pcr in Epc; rewrite Epc; exact Logic.I|].
+  assert (HfP : filter is_p (queue (net s q REQ)) = []) by (apply (Forall_creq_filter_p cfg); exact Hqc).
+  assert (Hn1 : pcr s q <> HandleBackup) by (rewrite Epc; discriminate).
+  assert (Hpq : pend s q = []) by (rewrite pend_not_hb by exact Hn1; exact HfP).
+  assert (N1 : ~ insync s q) by (unfold insync; rewrite Epc; intuition discriminate).
+  assert (N2 : ~ inrepl s q) by (unfold inrepl; rewrite Epc; intuition discriminate).
+  assert (N3 : ~ owed s q).
+  { unfold owed, owedP. rewrite HfP, Epc, Hss. intros [H|[H|H]]; [apply H; reflexivity | discriminate | discriminate]. }
+  assert (G : forall b, alive s b -> b <> q -> K s q <= K s b).
+  { intros b Ab Hb. destruct (le_lt_dec (K s q) (K s b)) as [H|H]; [exact H|]. exfalso.
+    destruct (ph_main cfg w s Ph Aq N2 b Ab Hb H) as [X|(X & _)]; contradiction. }
+  assert (HKq : K s q = lv).
+  { unfold K. destruct (r_lastPutBody (rl s q)); cbn in *; try discriminate. congruence. }
+  (* the leader does not have anything of the latest version pending: if it is old nobody knows the latest version *)
+  assert (Hnk : K s q < Mx w -> forall r, alive s r -> ~ knows w s r).
+  { intros Hlt r Ar Hk.
+    assert (Hkq : knows w s q).
+    { destruct (Nat.eq_dec r q) as [->|Hne]; [exact Hk|]. destruct (alive_ge_ldr cfg s r IA Ar) as [_ Hge]. fold q in Hge.
+      apply (p_order cfg w s P q r Aq Ar); [lia | exact Hk]. }
+    destruct Hkq as [H|(m & Hm & _)]; [lia | rewrite Hpq in Hm; destruct Hm]. }
+  (* content of the leader's version *)
+  destruct (v_rep cfg w s V q Aq) as [Hqn|Hqo].
+  - (* the leader is at the latest version: every live replica is *)
+    pose proof (isnew_K w s q Hqn) as HK. destruct Hqn as [Hql Hqf].
+    assert (Hall : forall b, alive s b -> isnew w s b).
+    { intros b Ab. destruct (Nat.eq_dec b q) as [->|Hne]; [split; assumption|].
+      apply (K_Mx_isnew cfg w s b V Ab). pose proof (G b Ab Hne). destruct (K_le_Mx cfg w s b V Ab). lia. }
+    exists (mkWit (Mx w + 1) (Some (k, v)) (Fnew w) (cM w)).
+    assert (Elv : lv = Mx w) by lia. unfold s', l'. rewrite Elv.
+    split; [reflexivity|]. split; [reflexivity|]. split; [intros k0; cbn; symmetry; apply Hqf|].
+    apply (invB_new_version cfg s k v (Mx w) (cM w) (Fnew w) IA Aq Epc).
+    + intros b Ab. apply (Hall b Ab).
+    + intros k0 v0 E. unfold Fnew. rewrite E. cbn. rewrite String.eqb_refl. reflexivity.
+    + intros r m Ar Hm. destruct (v_pend cfg w s V r m Ar Hm) as (ver & c & E & Hle & Hc & _). exists ver, c. auto.
+    + intros m Hm Ht. destruct (v_resp cfg w s V m Aq Hm Ht) as [(ver & c & E & Hle & Hc & _) B2]. split; [exists ver, c; auto | exact B2].
+    + intros b Ab Hb. apply (ph_noack cfg w s Ph Aq N2 b Ab Hb).
+  - (* the leader is one behind and nobody alive knows the latest version: it is overwritten *)
+    destruct (isold_K w s q Hqo) as [HK HMx1]. destruct Hqo as (_ & Hql & Hqf).
+    assert (Hlt : K s q < Mx w) by lia.
+    assert (Hall : forall b, alive s b -> isold w s b).
+    { intros b Ab. apply (K_lt_isold cfg w s b V Ab). destruct (K_le_Mx cfg w s b V Ab) as [H1 _].
+      destruct (Nat.eq_dec (K s b) (Mx w)) as [E|N]; [|lia]. exfalso. apply (Hnk Hlt b Ab). left. exact E. }
+    exists (mkWit (Mx w - 1 + 1) (Some (k, v)) (Fold w) (cO w)).
+    assert (Elv : lv = Mx w - 1) by lia. unfold s', l'. rewrite Elv.
+    split; [reflexivity|]. split; [reflexivity|]. split; [intros k0; cbn; symmetry; apply Hqf|].
+    apply (invB_new_version cfg s k v (Mx w - 1) (cO w) (Fold w) IA Aq Epc).
+    + intros b Ab. destruct (Hall b Ab) as (_ & E & Hf). split; assumption.
+    + apply (v_cO cfg w s V).
+    + intros r m Ar Hm. destruct (v_pend cfg w s V r m Ar Hm) as (ver & c & E & Hle & _ & Hc). exists ver, c.
+      assert (ver <> Mx w).
+      { intros Ev. apply (Hnk Hlt r Ar). right. exists m. split; [exact Hm | rewrite E; cbn; exact Ev]. }
+      split; [exact E|]. split; [lia|]. intros Ev. apply Hc. lia.
+    + intros m Hm Ht. destruct (v_resp cfg w s V m Aq Hm Ht) as [(ver & c & E & Hle & _ & Hc) B2].
+      split; [|exact B2]. exists ver, c.
+      assert (ver <> Mx w).
+      { intros Ev. apply (Hnk Hlt q Aq). apply (p_resp cfg w s P m Aq Hm Ht). rewrite E. cbn. exact Ev. }
+      split; [exact E|]. split; [lia|]. intros Ev. apply Hc. lia.
+    + intros b Ab Hb. apply (ph_noack cfg w s Ph Aq N2 b Ab Hb).
+Qed.
+
+(* at handlePrimary the abstract store is the leader's store *)
+Lemma store_is_leader : forall w s mo, InvA s -> InvB w s -> RelC w s mo -> alive s (ldr s) ->
+  pcr s (ldr s) = HandlePrimary -> forall k, mo_store mo k = fsv s (ldr s) k.
+Proof.
+  intros w s mo IA IB R Aq Epc k. pose proof (b_ver cfg w s IB) as V.
+  destruct (v_rep cfg w s V _ Aq) as [Hn|Ho].
+  - rewrite (rc_new w s mo R); [destruct Hn as [_ F]; rewrite F; reflexivity|].
+    split; [eauto|]. intros r Ar. apply (K_Mx_isnew cfg w s r V Ar).
+    rewrite (quiet_stable w s IA IB Aq (or_introl Epc) r Ar). apply isnew_K. exact Hn.
+  - rewrite (rc_old w s mo R); [destruct Ho as (_ & _ & F); rewrite F; reflexivity|]. exists (ldr s). auto.
+Qed.
+
+(* ------------------------------------------------------------------ handlePrimary *)
+Lemma simC_handlePrimary : forall s p ch s', SimC s -> isrep p -> pcr s p = HandlePrimary ->
+  step_replica cfg ch s p = Ok s' -> SimC s'.
+Proof.
+  intros s p ch s' (IA & w & t & mo & IB & Hrun & Hproj & R) Hp Epc Hs.
+  assert (Hstep : step cfg s (Ev p ch) = Ok s').
+  { unfold step. apply (isrep_iff cfg) in Hp. rewrite Hp. exact Hs. }
+  assert (IA' : InvA s') by (eapply invA_step; eauto).
+  assert (Ap : alive s p) by (split; [exact Hp | rewrite Epc; reflexivity]).
+  assert (Hq : p = ldr s) by (apply (nonbackup_is_ldr cfg s p IA Ap); rewrite Epc; cbn; tauto).
+  subst p. pose proof Epc as Epc0. unfold step_replica in Hs. unfold pcr in Epc. rewrite Epc in Hs.
+  pose proof (store_is_leader w s mo IA IB R Ap Epc0) as Hstore.
+  set (q0 := ldr s) in *.
+  destruct (served_state w s mo R Ap) as (c0 & cm & Hc0 & Ecp & Ecm & Erep & Ereq & Hfq & Hresp & HH & _); [unfold pcr; fold q0; rewrite Epc; exact Logic.I|].
+  pose proof (HH Epc0) as Hst. clear HH. fold q0 in Ereq, Hfq, Erep.
+  destruct (a_loc cfg s IA _ Ap) as (_ & _ & L3 & _).
+  destruct L3 as (m & Hreq & Hm & Hss & Hqc); [fold q0; rewrite Epc; exact Logic.I|]. fold q0 in Hreq, Hss, Hqc.
+  rewrite Ereq in Hreq. inversion Hreq; subst m. clear Hreq.
+  assert (Hc0q : c0 <> q0) by (intros E; rewrite E in Hc0; exact (client_not_rep _ Hc0 Hp)).
+  unfold step_handlePrimary in Hs. fold q0 in Hs. rewrite Ereq in Hs. cbn [bindT] in Hs.
+  pose proof Hm as (Hsrc & Hfrom & Hok). unfold reqmsgR in Hs. simp_st. cbn [srct_eqb negb] in Hs.
+  (* what does not depend on the kind of request *)
+  assert (FrameO : forall s1, cl s1 = cl s -> net s1 = net s -> (forall r, prim s1 r = prim s r) ->
+            (forall r, r <> q0 -> rl s1 r = rl s r) -> r_req (rl s1 q0) = r_req (rl s q0) -> pc_alive (pcr s1 q0) = true ->
+            forall c, is_client cfg c = true -> c <> c0 -> Frame s s1 c).
+  { intros s1 H1 H2 H3 H4 H5 H6 c Hc Hne.
+    assert (El1 : ldr s1 = q0) by (apply ldr_prim_ext; exact H3).
+    constructor; [rewrite H1; reflexivity | rewrite H2; reflexivity |].
+    left. split; [exact El1|]. split; [intros _; exact Ap|]. split; [fold q0; rewrite H2; reflexivity|]. split.
+    - intros (_ & _ & m1 & E1 & E2). rewrite El1, H5, Ereq in E1. inversion E1; subst m1. cbn in E2. congruence.
+    - intros (_ & _ & m1 & E1 & E2). fold q0 in E1. rewrite Ereq in E1. inversion E1; subst m1. cbn in E2. congruence. }
+  pose proof (creq_cases cfg _ Hm) as CC. unfold reqmsgR in CC. simp_st.
+  destruct CC as [(Ht & k & Hb) | (Ht & k & v & Hb)]; rewrite Ht, Hb in Hs; cbn [body_key body_value bindT] in Hs.
+  - (* Get: linearized here *)
+    inversion Hs; subst s'; clear Hs.
+    set (l' := r_set_pc (r_set_resp (rl s q0) (Some (BContent (fsv s q0 k))) (Some GET_RESP)) SndResp) in *.
+    assert (IB' : InvB w (set_rl s q0 l')).
+    { apply (invB_local_step cfg w s q0 l'); auto.
+      - apply pend_set_rl_nohb; [unfold pcr; rewrite Epc; discriminate | discriminate].
+      - right. unfold pcr. rewrite Epc. cbn. auto. }
+    set (s' := set_rl s q0 l') in *.
+    assert (El' : ldr s' = q0) by (apply ldr_prim_ext; reflexivity).
+    assert (Hal : forall r, alive s' r <-> alive s r).
+    { intros r. unfold ProofsCrashA.alive, pcr, s'. simp_st. unfold updf. destruct (Nat.eqb r q0) eqn:Er; [|tauto].
+      apply Nat.eqb_eq in Er. subst r. simp_st. rewrite Epc. cbn. tauto. }
+    split; [exact IA'|]. exists w, (t ++ [ILin c0]), (mkMon (mo_store mo) (upd_st (mo_st mo) c0 (CLinearized cm (mo_store mo k)))).
+    split; [exact IB'|]. split.
+    { rewrite mon_run_app, Hrun. cbn. rewrite Hst. unfold kv_apply. rewrite Ht, Hb. reflexivity. }
+    split. { rewrite proj_app. cbn. rewrite app_nil_r. exact Hproj. }
+    apply (relC_special w s s' mo _ c0 IA' R); auto.
+    + split; [exact Hal|]. split; [|reflexivity].
+      intros r. unfold s'. simp_st. unfold updf. destruct (Nat.eqb r q0) eqn:Er; [|reflexivity]. apply Nat.eqb_eq in Er. subst r. reflexivity.
+    + apply FrameO; auto; unfold s'; simp_st; rewrite ?updf_same; auto.
+      * intros r N. apply updf_other. exact N.
+      * unfold pcr. simp_st. rewrite updf_same. reflexivity.
+    + intros c Hne. cbn. apply upd_st_other. exact Hne.
+    + unfold cinvC. change (cl s' c0) with (cl s c0). rewrite Ecp. exists cm. split; [exact Ecm|]. right; right; left.
+      rewrite El'. split; [exact Erep|]. split; [apply Hal; exact Ap|].
+      unfold pcr, s'. simp_st. rewrite updf_same. unfold l'. simp_st.
+      split; [exact Logic.I|]. split; [exact Ereq|]. split; [exact Hfq|]. split; [exact Hresp|].
+      exists (BContent (fsv s q0 k)), GET_RESP. split; [reflexivity|]. split; [reflexivity|]. left.
+      split; [exact Ht|]. split; [reflexivity|]. exists (fsv s q0 k). split; [reflexivity|]. split; [reflexivity|].
+      cbn. rewrite upd_st_same, Hstore. reflexivity.
+    + intros _ [_ G]. destruct (G Ap) as [_ G2]. apply G2. split; [exact Ap|]. fold q0. unfold pcr. rewrite Epc. split; [exact Logic.I|].
+      eexists. split; [exact Ereq | reflexivity].
+    + intros [_ [H|H]]; fold q0 in H; unfold pcr in H; rewrite Epc in H; discriminate.
+    + rewrite El'. intros _ m1 Hin Hs1. apply (rc_q w s mo R Ap m1 Hin Hs1).
+    + rewrite El'. intros _ _. exists (reqmsgR c0 q0 cm (c_idx (cl s c0))). unfold s'. simp_st. rewrite updf_same. unfold l'. simp_st. auto.
+  - (* Put: a new version; linearized here only if no other replica is alive *)
+    destruct (body_ver (r_lastPutBody (rl s q0))) as [lv|] eqn:Elv; cbn [bindT] in Hs; [|discriminate].
+    inversion Hs; subst s'; clear Hs.
+    destruct (invB_hp_put_explicit w s k v lv IA IB Ap Epc0 Elv) as (w' & HMx & HcM & HFold & IB'). fold q0 in IB', HFold.
+    set (l' := r_set_pc (r_set_idx (r_set_rs (r_set_resp (r_set_lpb (rl s q0) (BPut (lv + 1) (Some (k, v))))
+                                               (Some ACK_MSG_BODY) (Some PUT_RESP)) (others cfg q0)) 1) SndReplicaReqLoop) in *.
+    set (s' := set_rl (set_fs s (upd_fs (fsv s) q0 k v)) q0 l') in *.
+    assert (El' : ldr s' = q0) by (apply ldr_prim_ext; reflexivity).
+    assert (Hal : forall r, alive s' r <-> alive s r).
+    { intros r. unfold ProofsCrashA.alive, pcr, s'. simp_st. unfold updf. destruct (Nat.eqb r q0) eqn:Er; [|tauto].
+      apply Nat.eqb_eq in Er. subst r. simp_st. rewrite Epc. cbn. tauto. }
+    assert (Aq' : alive s' q0) by (apply Hal; exact Ap).
+    pose proof (b_ver cfg w' s' IB') as V'.
+    assert (Hlv : K s q0 = lv).
+    { unfold K. destruct (r_lastPutBody (rl s q0)); cbn in *; try discriminate. congruence. }
+    assert (HKq : K s' q0 = Mx w') by (unfold K, s'; simp_st; rewrite updf_same; unfold l'; simp_st; cbn; lia).
+    assert (Hnewq : ProofsCrashB.isnew w' s' q0) by (apply (K_Mx_isnew cfg w' s' q0 V' Aq' HKq)).
+    assert (Holdr : forall r, alive s' r -> r <> q0 -> isold w' s' r).
+    { intros r Ar Hne. apply (K_lt_isold cfg w' s' r V' Ar).
+      assert (K s' r = K s r) by (unfold K, s'; simp_st; rewrite updf_other by exact Hne; reflexivity).
+      pose proof (quiet_stable w s IA IB Ap (or_introl Epc0) r (proj1 (Hal r) Ar)). fold q0 in H0. lia. }
+    assert (Hput : putof cm k v) by (split; assumption).
+    assert (Hinrepl : alive s' (ldr s') /\ inrepl s' (ldr s')).
+    { rewrite El'. split; [exact Aq'|]. left. unfold pcr, s'. simp_st. rewrite updf_same. reflexivity. }
+    assert (FO : forall c, is_client cfg c = true -> c <> c0 -> Frame s s' c).
+    { apply FrameO; auto; unfold s'; simp_st; rewrite ?updf_same; auto.
+      - intros r N. apply updf_other. exact N.
+      - unfold pcr. simp_st. rewrite updf_same. reflexivity. }
+    (* the state of the served client, for a given status *)
+    assert (CS : forall mo', ((someold w' s' /\ mo_st mo' c0 = CInvoked cm) \/ (allnew w' s' /\ mo_st mo' c0 = CLinearized cm "ack-body"%string)) ->
+                 cinvC w' s' mo' c0).
+    { intros mo' Hdis. unfold cinvC. change (cl s' c0) with (cl s c0). rewrite Ecp. exists cm. split; [exact Ecm|]. right; right; left.
+      rewrite El'. split; [exact Erep|]. split; [exact Aq'|].
+      unfold pcr, s'. simp_st. rewrite updf_same. unfold l'. simp_st.
+      split; [exact Logic.I|]. split; [exact Ereq|]. split; [exact Hfq|]. split; [exact Hresp|].
+      exists ACK_MSG_BODY, PUT_RESP. split; [reflexivity|]. split; [reflexivity|]. right.
+      exists k, v. split; [exact Hput|]. split; [reflexivity|]. split; [reflexivity|]. split; [rewrite HMx; reflexivity | exact Hdis]. }
+    (* the other clients *)
+    assert (CO : forall mo', (forall c, c <> c0 -> mo_st mo' c = mo_st mo c) ->
+                 forall c, is_client cfg c = true -> c <> c0 -> cinvC w' s' mo' c).
+    { intros mo' Hmo c Hc Hne.
+      assert (NSc : ~ servingC s c).
+      { intros (_ & _ & m1 & E1 & E2). fold q0 in E1. rewrite Ereq in E1. inversion E1; subst m1. cbn in E2. congruence. }
+      apply (cinvC_keepF w' s s' mo mo' c IA' (FO c Hc Hne) Hc (Hmo c Hne)).
+      - intros _ SC. contradiction.
+      - intros _ SC. contradiction.
+      - apply (cinvC_w_irrelevant w w' s mo c NSc). apply (rc_cl w s mo R c Hc). }
+    assert (HQ : alive s' (ldr s') -> forall m, In m (queue (net s' (ldr s') REQ)) -> m_src m = CLIENT_SRC -> is_client cfg (m_from m) = true).
+    { rewrite El'. intros _ m1 Hin Hs1. apply (rc_q w s mo R Ap m1 Hin Hs1). }
+    assert (HRq : alive s' (ldr s') -> serving (pcr s' (ldr s')) -> exists m, r_req (rl s' (ldr s')) = Some m /\ is_client cfg (m_from m) = true).
+    { rewrite El'. intros _ _. exists (reqmsgR c0 q0 cm (c_idx (cl s c0))). unfold s'. simp_st. rewrite updf_same. unfold l'. simp_st. auto. }
+    split; [exact IA'|]. exists w'.
+    destruct (new_or_old w' s' V') as [Hall|SO'].
+    + (* the leader is the only live replica: the Put is stable at once *)
+      assert (AN' : allnew w' s') by (split; [eauto | exact Hall]).
+      exists (t ++ [ILin c0]), (mkMon (upd_kv (mo_store mo) k v) (upd_st (mo_st mo) c0 (CLinearized cm "ack-body"%string))).
+      split; [exact IB'|]. split.
+      { rewrite mon_run_app, Hrun. cbn. rewrite Hst. unfold kv_apply. rewrite Ht, Hb. reflexivity. }
+      split. { rewrite proj_app. cbn. rewrite app_nil_r. exact Hproj. }
+      constructor.
+      * intros _ k0. cbn. unfold upd_kv, Fnew. rewrite HcM. cbn. rewrite HFold, Hstore. reflexivity.
+      * intros SO'. destruct (allnew_someold w' s' AN' SO').
+      * intros N'. contradiction.
+      * intros c Hc. destruct (Nat.eq_dec c c0) as [->|Hne].
+        -- apply CS. right. split; [exact AN' | cbn; apply upd_st_same].
+        -- apply CO; auto. intros c1 Hne1. cbn. apply upd_st_other. exact Hne1.
+      * intros c Hc. cbn. rewrite upd_st_other; [apply (rc_nc w s mo R c Hc)|]. intros ->. congruence.
+      * exact HQ.
+      * exact HRq.
+    + (* some backup has still to get it *)
+      exists t, mo. split; [exact IB'|]. split; [exact Hrun|]. split; [exact Hproj|].
+      constructor.
+      * intros AN'. destruct (allnew_someold w' s' AN' SO').
+      * intros _ k0. rewrite HFold, Hstore. reflexivity.
+      * intros N'. contradiction.
+      * intros c Hc. destruct (Nat.eq_dec c c0) as [->|Hne].
+        -- apply CS. left. split; [exact SO' | exact Hst].
+        -- apply CO; auto.
+      * apply (rc_nc w s mo R).
+      * exact HQ.
+      * exact HRq.
+Qed.
+
+(* ------------------------------------------------------------------ client steps *)
+(* a step that leaves the replicas' locals, stores and `primary` alone *)
+Section CLI.
+Variables (s s' : state).
+Hypothesis Hrl : rl s' = rl s.
+Hypothesis Hprim : prim s' = prim s.
+Hypothesis Hfs : fsv s' = fsv s.
+
+Lemma cli_ldr : ldr s' = ldr s.
+Proof. apply ldr_prim_ext. intros r. rewrite Hprim. reflexivity. Qed.
+
+Lemma cli_alive : forall r, alive s' r <-> alive s r.
+Proof. intros r. unfold ProofsCrashA.alive, pcr. rewrite Hrl. tauto. Qed.
+
+Lemma cli_same_rep : same_rep s s'.
+Proof. split; [exact cli_alive|]. split; intros; [rewrite Hrl | rewrite Hfs]; reflexivity. Qed.
+
+Lemma cli_serving : forall c, servingC s' c <-> servingC s c.
+Proof. intros c. unfold servingC. rewrite cli_ldr. unfold pcr. rewrite Hrl. rewrite (cli_alive (ldr s)). tauto. Qed.
+
+Lemma cli_frame : forall c, cl s' c = cl s c -> queue (net s' c RESP) = queue (net s c RESP) ->
+  fromc c (queue (net s' (ldr s) REQ)) = fromc c (queue (net s (ldr s) REQ)) -> Frame s s' c.
+Proof.
+  intros c H1 H2 H3. constructor; auto. left. split; [exact cli_ldr|]. split; [apply cli_alive|]. split; [exact H3|].
+  split; [apply cli_serving|]. intros _ _. rewrite Hrl. apply same_serving_refl.
+Qed.
+
+Lemma cli_gone : forall c, queue (net s' c RESP) = queue (net s c RESP) ->
+  fromc c (queue (net s' (ldr s) REQ)) = fromc c (queue (net s (ldr s) REQ)) -> gone s c -> gone s' c.
+Proof.
+  intros c H1 H2 [G1 G2]. split; [rewrite H1; exact G1|]. rewrite cli_ldr. intros Aq. apply cli_alive in Aq.
+  destruct (G2 Aq) as [G3 G4]. split; [rewrite H2; exact G3|]. intros SC. apply G4. apply cli_serving. exact SC.
+Qed.
+
+Lemma cli_inrepl : alive s (ldr s) /\ inrepl s (ldr s) -> alive s' (ldr s') /\ inrepl s' (ldr s').
+Proof. rewrite cli_ldr. intros [A B]. split; [apply cli_alive; exact A|]. unfold ProofsCrashB.inrepl, pcr in *. rewrite Hrl. exact B. Qed.
+
+Lemma cli_req : forall w mo, RelC w s mo -> alive s' (ldr s') -> serving (pcr s' (ldr s')) ->
+  exists m, r_req (rl s' (ldr s')) = Some m /\ is_client cfg (m_from m) = true.
+Proof. intros w mo R. rewrite cli_ldr. unfold pcr. rewrite Hrl. intros A B. apply cli_alive in A. apply (rc_req w s mo R A B). Qed.
+End CLI.
+
+Lemma simC_client_step : forall s c0 ch s', SimC s -> is_client cfg c0 = true ->
+  step_client cfg ch s c0 = Ok s' -> ~ (c_pc (cl s c0) = RcvResp /\ ch_alt ch = true) -> SimC s'.
+Proof.
+  intros s c0 ch s' (IA & w & t & mo & IB & Hrun & Hproj & R) Hc0 Hs Hnr.
+  assert (Hnrep : ~ isrep c0) by (apply client_not_rep; exact Hc0).
+  assert (Hgt : NR cfg < c0) by (apply is_client_true in Hc0; lia).
+  assert (Hstep : step cfg s (Ev c0 ch) = Ok s').
+  { unfold step. apply (isrep_false cfg) in Hnrep. rewrite Hnrep, Hc0. exact Hs. }
+  assert (IA' : InvA s') by (eapply invA_step; eauto).
+  assert (IB' : InvB w s') by (eapply (invB_client_step cfg w s c0 ch s'); eauto).
+  pose proof (rc_cl w s mo R c0 Hc0) as Hcc. unfold cinvC in Hcc.
+  split; [exact IA'|]. exists w.
+  unfold step_client in Hs. destruct (c_pc (cl s c0)) eqn:Epc.
+  - (* clientLoop: invocation *)
+    destruct Hcc as [G Hst]. unfold step_clientLoop in Hs. destruct (cin s) as [|m rest]; [discriminate|].
+    inversion Hs; subst s'; clear Hs.
+    exists (t ++ [IInv c0 m]), (mkMon (mo_store mo) (upd_st (mo_st mo) c0 (CInvoked m))).
+    split; [exact IB'|]. split. { rewrite mon_run_app, Hrun. cbn. rewrite Hst. reflexivity. }
+    split. { rewrite proj_app. cbn. simp_st. rewrite Hproj. reflexivity. }
+    match goal with |- RelC w ?s1 _ => set (s' := s1) in * end.
+    apply (relC_special w s s' mo _ c0 IA' R); auto.
+    + apply cli_same_rep; reflexivity.
+    + intros c Hc Hne. apply cli_frame; try reflexivity. unfold s'. simp_st. apply updf_other. exact Hne.
+    + intros c Hne. cbn. apply upd_st_other. exact Hne.
+    + unfold cinvC. remember (cl s' c0) as l0 eqn:El0. unfold s' in El0. simp_st. rewrite updf_same in El0. subst l0. simp_st. split; [apply (cli_gone s s'); auto|].
+      exists m. split; [reflexivity|]. cbn. apply upd_st_same.
+    + intros E. congruence.
+    + rewrite (cli_ldr s s') by reflexivity. intros Aq. apply (cli_alive s s') in Aq; [|reflexivity]. apply (rc_q w s mo R Aq).
+    + apply (cli_req s s' eq_refl eq_refl w mo R).
+  - (* sndReq *)
+    destruct Hcc as (G & cm & Ecm & Hst). unfold step_sndReq in Hs. fold (ldr s) in Hs.
+    destruct (negb (Nat.eqb (ldr s) 0)) eqn:Eq0.
+    2:{ (* no replica left *)
+      inversion Hs; subst s'; clear Hs. exists t, mo. split; [exact IB'|]. split; [exact Hrun|]. split; [exact Hproj|].
+      match goal with |- RelC w ?s1 _ => set (s' := s1) in * end.
+      apply (relC_special w s s' mo _ c0 IA' R); auto.
+      + apply cli_same_rep; reflexivity.
+      + intros c Hc Hne. apply cli_frame; try reflexivity. unfold s'. simp_st. apply updf_other. exact Hne.
+      + unfold cinvC. remember (cl s' c0) as l0 eqn:El0. unfold s' in El0. simp_st. rewrite updf_same in El0. subst l0. simp_st. apply (cli_gone s s'); auto.
+      + intros E. congruence.
+      + rewrite (cli_ldr s s') by reflexivity. intros Aq. apply (cli_alive s s') in Aq; [|reflexivity]. apply (rc_q w s mo R Aq).
+      + apply (cli_req s s' eq_refl eq_refl w mo R). }
+    destruct (negb (ch_alt ch)).
+    2:{ (* the leader is suspected: look again *)
+      destruct (fdv s (ldr s)); [|discriminate].
+      inversion Hs; subst s'; clear Hs. exists t, mo. split; [exact IB'|]. split; [exact Hrun|]. split; [exact Hproj|].
+      match goal with |- RelC w ?s1 _ => set (s' := s1) in * end.
+      apply (relC_special w s s' mo _ c0 IA' R); auto.
+      + apply cli_same_rep; reflexivity.
+      + intros c Hc Hne. apply cli_frame; try reflexivity. unfold s'. simp_st. apply updf_other. exact Hne.
+      + unfold cinvC. remember (cl s' c0) as l0 eqn:El0. unfold s' in El0. simp_st. rewrite updf_same in El0. subst l0. simp_st. rewrite Epc. split; [apply (cli_gone s s'); auto|].
+        exists cm. auto.
+      + intros E. congruence.
+      + rewrite (cli_ldr s s') by reflexivity. intros Aq. apply (cli_alive s s') in Aq; [|reflexivity]. apply (rc_q w s mo R Aq).
+      + apply (cli_req s s' eq_refl eq_refl w mo R). }
+    rewrite Ecm in Hs. cbn [bindT] in Hs. unfold link_send in Hs. destruct (enabled (net s (ldr s) REQ)) eqn:Een; [|discriminate].
+    inversion Hs; subst s'; clear Hs.
+    (* the leader is alive *)
+    assert (Hq0 : ldr s <> 0) by (apply negb_true_iff in Eq0; apply Nat.eqb_neq in Eq0; exact Eq0).
+    destruct (ldr_nonzero cfg s IA Hq0) as (Hqr & _ & _).
+    assert (Aq : alive s (ldr s)).
+    { split; [exact Hqr|]. rewrite <- (a_en_r cfg s IA (ldr s) REQ Hqr). exact Een. }
+    destruct G as [G1 G2]. destruct (G2 Aq) as [G3 G4].
+    exists t, mo. split; [exact IB'|]. split; [exact Hrun|]. split; [exact Hproj|].
+    set (q0 := ldr s) in *.
+    set (req := mkMsg c0 q0 (cm_body cm) CLIENT_SRC (cm_typ cm) (c_idx (cl s c0))) in *.
+    match goal with |- RelC w ?s1 _ => set (s' := s1) in * end.
+    assert (Hq1 : queue (net s' q0 REQ) = queue (net s q0 REQ) ++ [req]) by (unfold s'; simp_st; rewrite upd_net_same; reflexivity).
+    assert (Hfo : forall c, c <> c0 -> fromc c (queue (net s' q0 REQ)) = fromc c (queue (net s q0 REQ))).
+    { intros c Hne. rewrite Hq1, fromc_app. cbn. destruct (Nat.eqb c0 c) eqn:Er; [apply Nat.eqb_eq in Er; congruence | apply app_nil_r]. }
+    apply (relC_special w s s' mo _ c0 IA' R); auto.
+    + apply cli_same_rep; reflexivity.
+    + intros c Hc Hne. apply cli_frame; try reflexivity.
+      * unfold s'. simp_st. apply updf_other. exact Hne.
+      * unfold s'. simp_st. rewrite upd_net_other by (right; discriminate). reflexivity.
+      * apply Hfo. exact Hne.
+    + (* Q *)
+      unfold cinvC. remember (cl s' c0) as l0 eqn:El0. unfold s' in El0. simp_st. rewrite updf_same in El0. subst l0. simp_st. rewrite Epc. exists cm. split; [exact Ecm|]. left.
+      rewrite (cli_ldr s s') by reflexivity. fold q0.
+      split; [reflexivity|]. split; [rewrite Hq1, fromc_app; fold q0 in G3; rewrite G3; cbn; rewrite Nat.eqb_refl; reflexivity|].
+      split; [intros SC; apply G4; apply (cli_serving s s' eq_refl eq_refl); exact SC|].
+      split; [|exact Hst]. unfold s'. simp_st. rewrite upd_net_other by (right; discriminate). exact G1.
+    + intros E. congruence.
+    + rewrite (cli_ldr s s') by reflexivity. fold q0. intros _ m1 Hin Hs1. rewrite Hq1 in Hin. apply in_app_or in Hin.
+      destruct Hin as [Hin|[<-|[]]]; [apply (rc_q w s mo R Aq m1 Hin Hs1) | exact Hc0].
+    + apply (cli_req s s' eq_refl eq_refl w mo R).
+  - (* rcvResp: the answer arrives *)
+    destruct Hcc as (cm & Ecm & Hcc). unfold step_rcvResp in Hs.
+    destruct (ch_alt ch) eqn:Ealt; [exfalso; apply Hnr; auto|]. cbn [negb] in Hs.
+    unfold link_recv in Hs. destruct (negb (enabled _)); [discriminate|].
+    destruct (queue (net s c0 RESP)) as [|r rest] eqn:Eq; [discriminate|].
+    destruct Hcc as [(_ & _ & _ & Q4 & _)|[(_ & _ & _ & _ & _ & H6 & _)|[(_ & _ & _ & _ & _ & S6 & _)|[(R1 & v & rb & rt & R2 & Hst & Hmatch)|([X1 _] & _)]]]]; try discriminate.
+    inversion R2; subst r rest. clear R2. simp_st. rewrite Nat.eqb_refl in Hs. cbn [negb] in Hs.
+    rewrite Ecm in Hs. cbn [bindT] in Hs.
+    assert (Hc : exists c1, Ok (add_hist (set_cl (set_cout (set_net s (upd_net (net s) c0 RESP (mkLink [] (enabled (net s c0 RESP))))) (Some c1)) c0 (c_set_pc (cl s c0) ClientLoop)) (HRes c0 c1)) = Ok s' /\ c1 = v).
+    { destruct Hmatch as [(T & -> & -> & ->)|(T & -> & ->)]; rewrite T in Hs.
+      - dif Hs; [discriminate|]. cbn [body_content ACK_MSG_BODY bindT] in Hs. eexists. split; [exact Hs | reflexivity].
+      - dif Hs; [discriminate|]. cbn [body_content bindT] in Hs. eexists. split; [exact Hs | reflexivity]. }
+    destruct Hc as (c1 & Hs1 & ->). clear Hs. inversion Hs1; subst s'; clear Hs1.
+    exists (t ++ [IRes c0 v]), (mkMon (mo_store mo) (upd_st (mo_st mo) c0 CIdle)).
+    split; [exact IB'|]. split. { rewrite mon_run_app, Hrun. cbn. rewrite Hst, String.eqb_refl. reflexivity. }
+    split. { rewrite proj_app. cbn. simp_st. rewrite Hproj. reflexivity. }
+    match goal with |- RelC w ?s1 _ => set (s' := s1) in * end.
+    apply (relC_special w s s' mo _ c0 IA' R); auto.
+    + apply cli_same_rep; reflexivity.
+    + intros c Hc Hne. apply cli_frame; try reflexivity.
+      * unfold s'. simp_st. apply updf_other. exact Hne.
+      * unfold s'. simp_st. rewrite upd_net_other by (left; exact Hne). reflexivity.
+      * unfold s'. simp_st. rewrite upd_net_other by (right; discriminate). reflexivity.
+    + intros c Hne. cbn. apply upd_st_other. exact Hne.
+    + unfold cinvC. remember (cl s' c0) as l0 eqn:El0. unfold s' in El0. simp_st. rewrite updf_same in El0. subst l0. simp_st. split; [|cbn; apply upd_st_same].
+      split; [unfold s'; simp_st; rewrite upd_net_same; reflexivity|].
+      rewrite (cli_ldr s s') by reflexivity. intros Aq. apply (cli_alive s s') in Aq; [|reflexivity].
+      destruct (R1 Aq) as [G3 G4]. split.
+      * unfold s'. simp_st. rewrite upd_net_other by (right; discriminate). exact G3.
+      * intros SC. apply G4. apply (cli_serving s s' eq_refl eq_refl). exact SC.
+    + intros _ [G _]. rewrite Eq in G. discriminate.
+    + rewrite (cli_ldr s s') by reflexivity. intros Aq. apply (cli_alive s s') in Aq; [|reflexivity].
+      unfold s'. simp_st. rewrite upd_net_other by (right; discriminate). apply (rc_q w s mo R Aq).
+    + apply (cli_req s s' eq_refl eq_refl w mo R).
+  - discriminate.
 Qed.
 
 End LC.
